@@ -22,10 +22,10 @@ Lemma mem_false x l : mem x l = false <-> ~ In x l.
 Proof. rewrite <- mem_In. destruct (mem x l); split; congruence. Qed.
 
 (* ------------------------------------------------------------------------------------------ *)
-(** * transfer *)
+(** * transfer (code after the repairs 5a43ef0 / cb049a3: no error case remains) *)
 
 (** The three argument forms after the code's normalisation:
-    - [Bip S R]  : senders/receivers (None -> range(m), int -> [int], else list(...)) — done by
+    - [Bip Sd R] : senders/receivers (None -> range(m), int -> [int], else list(...)) — done by
                    the caller of the model ([norm_arg] below), lists kept in the given order;
     - [Dict d]   : sender_receivers as a dict, as its items() in insertion order (keys distinct);
     - [Pairs g]  : sender_receivers as a list of (sender, receiver) pairs. *)
@@ -48,20 +48,23 @@ Definition my_senders (G : Graph) (pid : nat) : list nat :=
   | Pairs g => map fst (filter (fun ab => snd ab =? pid) g)
   end.
 
+(** sender_receivers.get(self.pid, ()) *)
+Definition dict_get (d : list (nat * list nat)) (pid : nat) : list nat :=
+  match find (fun ab => fst ab =? pid) d with Some ab => snd ab | None => [] end.
+
 (**   my_receivers = receivers if self.pid in senders else []
-      my_receivers = list(sender_receivers[self.pid])          -- None models KeyError
+      my_receivers = list(sender_receivers.get(self.pid, ()))
       my_receivers = [b for a, b in sender_receivers if a == self.pid]                        *)
-Definition my_receivers (G : Graph) (pid : nat) : option (list nat) :=
+Definition my_receivers (G : Graph) (pid : nat) : list nat :=
   match G with
-  | Bip Sd R => Some (if mem pid Sd then R else [])
-  | Dict d => option_map snd (find (fun ab => fst ab =? pid) d)
-  | Pairs g => Some (map snd (filter (fun ab => fst ab =? pid) g))
+  | Bip Sd R => if mem pid Sd then R else []
+  | Dict d => dict_get d pid
+  | Pairs g => map snd (filter (fun ab => fst ab =? pid) g)
   end.
 
 (** messages actually put on / expected from the network (peer_pid != self.pid), in loop order *)
 Definition not_self (pid : nat) (l : list nat) : list nat := filter (fun q => negb (q =? pid)) l.
-Definition transfer_sends (G : Graph) (pid : nat) : option (list nat) :=
-  option_map (not_self pid) (my_receivers G pid).
+Definition transfer_sends (G : Graph) (pid : nat) : list nat := not_self pid (my_receivers G pid).
 Definition transfer_recvs (G : Graph) (pid : nat) : list nat := not_self pid (my_senders G pid).
 
 (** the designated arcs of the communication graph *)
@@ -76,26 +79,17 @@ Definition wf (G : Graph) : Prop :=
   match G with Dict d => NoDup (map fst d) | _ => True end.
 
 (** what a party returns: the objects of its designated senders in my_senders order;
-    with [senders] an int the code takes outdata[0] *)
-Inductive Res (A : Type) : Type := Ok (a : A) | IndexErr | KeyErr.
-Arguments Ok {A}. Arguments IndexErr {A}. Arguments KeyErr {A}.
-
+    with [senders] an int:  outdata[0] if outdata else None *)
 Section TransferResult.
 Context {A : Type}.
 Variable obj : nat -> A.
 
-Definition transfer_result (G : Graph) (pid : nat) : Res (list A) :=
-  match my_receivers G pid with
-  | None => KeyErr
-  | Some _ => Ok (map obj (my_senders G pid))
-  end.
+Definition transfer_result (G : Graph) (pid : nat) : list A := map obj (my_senders G pid).
 
-Definition transfer_result_int (s : nat) (R : list nat) (pid : nat) : Res A :=
+Definition transfer_result_int (s : nat) (R : list nat) (pid : nat) : option A :=
   match transfer_result (Bip [s] R) pid with
-  | Ok (x :: _) => Ok x
-  | Ok [] => IndexErr
-  | IndexErr => IndexErr
-  | KeyErr => KeyErr
+  | x :: _ => Some x
+  | [] => None
   end.
 End TransferResult.
 
@@ -119,6 +113,29 @@ Lemma find_key_fst (d : list (nat * list nat)) i ab :
   find (fun ab => fst ab =? i) d = Some ab -> fst ab = i.
 Proof. intros H. apply find_some in H. destruct H as [_ H]. apply Nat.eqb_eq in H. exact H. Qed.
 
+(** the dict lookup with default: j is in d.get(i, ()) iff some item (i, l) of d has j in l *)
+Lemma in_dict_get (d : list (nat * list nat)) i j :
+  NoDup (map fst d) -> (In j (dict_get d i) <-> exists l, In (i, l) d /\ In j l).
+Proof.
+  intros Hnd. unfold dict_get.
+  destruct (find (fun ab => fst ab =? i) d) as [[a b]|] eqn:F; simpl.
+  - pose proof (find_key_fst _ _ _ F) as Ea. simpl in Ea. subst a.
+    apply (find_key_some d i b Hnd) in F. split.
+    + intros Hj. exists b. auto.
+    + intros [l [H1 H2]]. assert (l = b) as ->; [|exact H2].
+      apply (find_key_some d i l Hnd) in H1. apply (find_key_some d i b Hnd) in F. congruence.
+  - split; [contradiction|]. intros [l [H1 _]].
+    apply (find_none _ _ F) in H1. simpl in H1. rewrite Nat.eqb_refl in H1. discriminate.
+Qed.
+
+(** a party that is not a key of the dict has no receivers (and sends nothing) *)
+Lemma dict_get_missing (d : list (nat * list nat)) i : ~ In i (map fst d) -> dict_get d i = [].
+Proof.
+  intros H. unfold dict_get. destruct (find (fun ab => fst ab =? i) d) as [ab|] eqn:F; [|reflexivity].
+  exfalso. apply H. pose proof (find_key_fst _ _ _ F) as E. apply find_some in F.
+  apply in_map_iff. exists ab. tauto.
+Qed.
+
 (** exactly the designated senders are expected *)
 Theorem my_senders_arc (G : Graph) i j : In i (my_senders G j) <-> arc G i j.
 Proof.
@@ -138,33 +155,25 @@ Proof.
       simpl. apply Nat.eqb_refl.
 Qed.
 
-(** exactly the designated receivers are sent to (when the lookup does not fail) *)
-Theorem my_receivers_arc (G : Graph) i j l :
-  wf G -> my_receivers G i = Some l -> (In j l <-> arc G i j).
+(** exactly the designated receivers are sent to — for EVERY party, key of the dict or not *)
+Theorem my_receivers_arc (G : Graph) i j : wf G -> (In j (my_receivers G i) <-> arc G i j).
 Proof.
-  destruct G as [Sd R|d|g]; simpl; intros Hwf H.
-  - inversion H; subst; clear H. destruct (mem i Sd) eqn:E.
+  destruct G as [Sd R|d|g]; simpl; intros Hwf.
+  - destruct (mem i Sd) eqn:E.
     + apply mem_In in E. tauto.
     + apply mem_false in E. simpl. tauto.
-  - destruct (find (fun ab => fst ab =? i) d) as [[a b]|] eqn:F; simpl in H; [|discriminate].
-    inversion H; subst; clear H.
-    pose proof (find_key_fst _ _ _ F) as Ea. simpl in Ea. subst a.
-    apply find_key_some in F; [|exact Hwf]. split.
-    + intros Hj. exists l. auto.
-    + intros [l' [H1 H2]].
-      assert (l' = l) as ->; [|exact H2].
-      apply (find_key_some d i l' Hwf) in H1. apply (find_key_some d i l Hwf) in F. congruence.
-  - inversion H; subst; clear H. rewrite in_map_iff. split.
+  - apply in_dict_get. exact Hwf.
+  - rewrite in_map_iff. split.
     + intros [[a b] [E H]]. simpl in E. subst b. apply filter_In in H. destruct H as [H1 H2].
       simpl in H2. apply Nat.eqb_eq in H2. subst a. exact H1.
     + intros H. exists (i, j). split; [reflexivity|]. apply filter_In. split; [exact H|].
       simpl. apply Nat.eqb_refl.
 Qed.
 
-(** C07: receiver j expects a message from i iff i sends to j (all three forms) *)
-Theorem transfer_matched (G : Graph) i j l :
-  wf G -> my_receivers G i = Some l -> (In j l <-> In i (my_senders G j)).
-Proof. intros Hwf H. rewrite my_senders_arc. apply my_receivers_arc; assumption. Qed.
+(** C07: receiver j expects a message from i iff i sends to j (all three forms, all parties) *)
+Theorem transfer_matched (G : Graph) i j :
+  wf G -> (In j (my_receivers G i) <-> In i (my_senders G j)).
+Proof. intros Hwf. rewrite my_senders_arc. apply my_receivers_arc; assumption. Qed.
 
 Lemma in_not_self pid q l : In q (not_self pid l) <-> In q l /\ q <> pid.
 Proof.
@@ -172,23 +181,19 @@ Proof.
 Qed.
 
 (** ... and on the wire: a frame i -> j is written iff j calls receive for i *)
-Theorem transfer_wire_matched (G : Graph) i j l :
-  wf G -> transfer_sends G i = Some l -> (In j l <-> In i (transfer_recvs G j)).
+Theorem transfer_wire_matched (G : Graph) i j :
+  wf G -> (In j (transfer_sends G i) <-> In i (transfer_recvs G j)).
 Proof.
-  unfold transfer_sends, transfer_recvs. intros Hwf H.
-  destruct (my_receivers G i) as [l0|] eqn:E; simpl in H; [|discriminate].
-  inversion H; subst; clear H. rewrite !in_not_self.
-  rewrite (transfer_matched G i j l0 Hwf E). split; intros [H1 H2]; split; auto.
+  unfold transfer_sends, transfer_recvs. intros Hwf. rewrite !in_not_self.
+  rewrite (transfer_matched G i j Hwf). split; intros [H1 H2]; split; auto.
 Qed.
 
 (** C19: nothing is sent to a party that is not a designated receiver of the sender *)
-Theorem transfer_sends_within_receivers (G : Graph) i j l :
-  wf G -> transfer_sends G i = Some l -> In j l -> arc G i j.
+Theorem transfer_sends_within_receivers (G : Graph) i j :
+  wf G -> In j (transfer_sends G i) -> arc G i j.
 Proof.
-  unfold transfer_sends. intros Hwf H Hj.
-  destruct (my_receivers G i) as [l0|] eqn:E; simpl in H; [|discriminate].
-  inversion H; subst; clear H. apply in_not_self in Hj. destruct Hj as [Hj _].
-  apply (my_receivers_arc G i j l0 Hwf E). exact Hj.
+  unfold transfer_sends. intros Hwf Hj. apply in_not_self in Hj. destruct Hj as [Hj _].
+  apply (my_receivers_arc G i j Hwf). exact Hj.
 Qed.
 
 (** a party with no designated sender expects nothing and returns the empty list *)
@@ -201,20 +206,27 @@ Proof.
   split; [exact E|]. unfold transfer_recvs. rewrite E. reflexivity.
 Qed.
 
+(** a party that is not a key of a dict graph sends nothing *)
+Theorem transfer_dict_missing_key_silent (d : list (nat * list nat)) i :
+  ~ In i (map fst d) -> my_receivers (Dict d) i = [] /\ transfer_sends (Dict d) i = [].
+Proof.
+  intros H. simpl. unfold transfer_sends. simpl. rewrite (dict_get_missing d i H). split; reflexivity.
+Qed.
+
 Section TransferDelivers.
 Context {A : Type}.
 Variable obj : nat -> A.
 
 (** each party returns exactly its designated senders' objects, in my_senders order *)
-Theorem transfer_delivers (G : Graph) j l :
-  my_receivers G j = Some l -> transfer_result obj G j = Ok (map obj (my_senders G j)).
-Proof. unfold transfer_result. intros ->. reflexivity. Qed.
+Theorem transfer_delivers (G : Graph) (j : nat) :
+  transfer_result obj G j = map obj (my_senders G j).
+Proof. reflexivity. Qed.
 
 (** bipartite form: a receiver gets the senders' objects in the order of [senders], anyone
     else gets the empty list (the list-valued "None") *)
 Theorem transfer_delivers_bip (Sd R : list nat) j :
-  (In j R -> transfer_result obj (Bip Sd R) j = Ok (map obj Sd)) /\
-  (~ In j R -> transfer_result obj (Bip Sd R) j = Ok []).
+  (In j R -> transfer_result obj (Bip Sd R) j = map obj Sd) /\
+  (~ In j R -> transfer_result obj (Bip Sd R) j = []).
 Proof.
   unfold transfer_result. simpl. split; intros H.
   - apply mem_In in H. rewrite H. reflexivity.
@@ -223,69 +235,30 @@ Qed.
 
 (** pair-list form: the result lists the arcs into j in list order *)
 Theorem transfer_delivers_pairs (g : list (nat * nat)) j :
-  transfer_result obj (Pairs g) j = Ok (map obj (map fst (filter (fun ab => snd ab =? j) g))).
+  transfer_result obj (Pairs g) j = map obj (map fst (filter (fun ab => snd ab =? j) g)).
 Proof. reflexivity. Qed.
 
-(** dict form: fine when the party is a key of the dict *)
+(** dict form, EVERY party (key of the dict or not): the keys whose value contains j, in key order *)
 Theorem transfer_delivers_dict (d : list (nat * list nat)) j :
-  In j (map fst d) ->
-  transfer_result obj (Dict d) j = Ok (map obj (map fst (filter (fun ab => mem j (snd ab)) d))).
-Proof.
-  intros H. unfold transfer_result. simpl.
-  destruct (find (fun ab => fst ab =? j) d) eqn:F; [reflexivity|].
-  exfalso. apply in_map_iff in H. destruct H as [ab [E H]].
-  apply (find_none _ _ F) in H. rewrite E, Nat.eqb_refl in H. discriminate.
-Qed.
+  transfer_result obj (Dict d) j = map obj (map fst (filter (fun ab => mem j (snd ab)) d)).
+Proof. reflexivity. Qed.
 
-(** int sender: a receiver gets the object itself *)
+(** int sender: a receiver gets the object itself ... *)
 Theorem transfer_int_receiver (s : nat) (R : list nat) j :
-  In j R -> transfer_result_int obj s R j = Ok (obj s).
+  In j R -> transfer_result_int obj s R j = Some (obj s).
 Proof.
   intros H. unfold transfer_result_int, transfer_result. simpl.
   apply mem_In in H. rewrite H. reflexivity.
 Qed.
 
-(** F-C07 (a): with an int sender every non-receiver runs outdata[0] on an empty list *)
-Theorem transfer_int_nonreceiver_error (s : nat) (R : list nat) j :
-  ~ In j R -> transfer_result_int obj s R j = IndexErr.
+(** ... and a non-receiver gets None (repair cb049a3) *)
+Theorem transfer_int_nonreceiver_none (s : nat) (R : list nat) j :
+  ~ In j R -> transfer_result_int obj s R j = None.
 Proof.
   intros H. unfold transfer_result_int, transfer_result. simpl.
   apply mem_false in H. rewrite H. reflexivity.
 Qed.
-
-(** F-C07 (b): a party that is not a key of the dict fails at sender_receivers[self.pid] *)
-Theorem transfer_dict_missing_key_error (d : list (nat * list nat)) j :
-  ~ In j (map fst d) -> transfer_result obj (Dict d) j = KeyErr.
-Proof.
-  intros H. unfold transfer_result. simpl.
-  destruct (find (fun ab => fst ab =? j) d) as [ab|] eqn:F; [|reflexivity].
-  exfalso. apply H. pose proof (find_key_fst _ _ _ F) as E. apply find_some in F.
-  apply in_map_iff. exists ab. tauto.
-Qed.
 End TransferDelivers.
-
-(** the property's "non-receivers obtain None / all parties complete" is FALSE of the model
-    (hence of the code) for these two call forms, with 3 parties *)
-Theorem transfer_int_sender_refuted :
-  exists (s : nat) (R : list nat) (pid : nat), s < 3 /\ pid < 3 /\ (forall r, In r R -> r < 3) /\
-    ~ In pid R /\ transfer_result_int (fun i => i) s R pid = IndexErr.
-Proof.
-  exists 0, [1], 2. repeat split; try lia.
-  - intros r [H|[]]. lia.
-  - intros [H|[]]. discriminate.
-Qed.
-
-Theorem transfer_dict_refuted :
-  exists (d : list (nat * list nat)) (pid : nat), wf (Dict d) /\ pid < 3 /\
-    (forall i j, arc (Dict d) i j -> i < 3 /\ j < 3) /\ arc (Dict d) 0 pid /\
-    transfer_result (fun i => i) (Dict d) pid = KeyErr.
-Proof.
-  exists [(0, [1])], 1. repeat split; try lia.
-  - simpl. constructor; [intros []|constructor].
-  - destruct H as [l [[H|[]] Hj]]. inversion H; subst. lia.
-  - destruct H as [l [[H|[]] Hj]]. inversion H; subst. destruct Hj as [Hj|[]]. lia.
-  - simpl. exists [1]. split; left; reflexivity.
-Qed.
 
 (* ------------------------------------------------------------------------------------------ *)
 (** * input (_distribute): each sender deals to every other party; everybody expects one
